@@ -184,7 +184,12 @@ func (m *Machine) drawAvs(t *rapid.T, g *GenOpts, a *Action) {
 				op = m.OperatorIdent(fit[uniform(t, len(fit), "fit")])
 			}
 		}
-		if pct(t, 50, "via-msg?") {
+		viaMsg := pct(t, 50, "via-msg?")
+		if !viaMsg && g.AvoidSenderNotSigner != nil {
+			viaMsg = true
+			*g.AvoidSenderNotSigner++
+		}
+		if viaMsg {
 			x.Via = 1
 			x.Target = from
 			x.From = op
@@ -207,7 +212,11 @@ func (m *Machine) drawAvs(t *rapid.T, g *GenOpts, a *Action) {
 		}
 		x.From = x.Sender
 		if pct(t, 25, "third-party?") {
-			x.From = anyIdent("from")
+			if g.AvoidSenderNotSigner != nil {
+				*g.AvoidSenderNotSigner++
+			} else {
+				x.From = anyIdent("from")
+			}
 		}
 		x.Name = "key"
 		x.BlsKey = x.Sender - len(m.W.AVSKeys)
